@@ -8,13 +8,61 @@ fn stub_format(_a: std::fmt::Arguments<'_>) -> String {
     String::new()
 }
 
+// C16 is about WHICH memory is written, not about the word kernels (those are C19's obligations): both kernels
+// are replaced by bit-by-bit reference models of their documented contracts, so that the ownership logic of
+// bitwise_bin_op_assign can be decided (with the real kernels the harnesses exceed the 12 GB cap).
+fn ref_apply_bitwise_binary_op<F, R>(left: &mut [u8], lo: usize, right: R, ro: usize, len: usize, mut op: F)
+where
+    F: FnMut(u64, u64) -> u64,
+    R: AsRef<[u8]>,
+{
+    let r = right.as_ref();
+    let mut i = 0;
+    while i < 12 {
+        if i < len {
+            let a = ((left[(lo + i) / 8] >> ((lo + i) % 8)) & 1) as u64;
+            let b = ((r[(ro + i) / 8] >> ((ro + i) % 8)) & 1) as u64;
+            let v = op(a, b) & 1;
+            let m = 1u8 << ((lo + i) % 8);
+            if v == 1 {
+                left[(lo + i) / 8] |= m;
+            } else {
+                left[(lo + i) / 8] &= !m;
+            }
+        }
+        i += 1;
+    }
+}
+
+fn ref_from_bitwise_binary_op<F, L, R>(left: L, lo: usize, right: R, ro: usize, len: usize, mut op: F) -> BooleanBuffer
+where
+    F: FnMut(u64, u64) -> u64,
+    L: AsRef<[u8]>,
+    R: AsRef<[u8]>,
+{
+    let (l, r) = (left.as_ref(), right.as_ref());
+    let mut a = 0u64;
+    let mut b = 0u64;
+    let mut i = 0;
+    while i < 12 {
+        if i < len {
+            a |= (((l[(lo + i) / 8] >> ((lo + i) % 8)) & 1) as u64) << i;
+            b |= (((r[(ro + i) / 8] >> ((ro + i) % 8)) & 1) as u64) << i;
+        }
+        i += 1;
+    }
+    BooleanBuffer::new(Buffer::from_vec(vec![op(a, b)]), 0, len)
+}
+
 //@ tier: quick
 //@ functions: arrow_buffer::BooleanBuffer::{bitand_assign, bitor_assign, bitwise_bin_op_assign}, Buffer::into_mutable, apply_bitwise_binary_op, from_bitwise_binary_op
 //@ bound: 2-byte masks, left operand a 12-bit view at bit offset 3 that is shared with a second live handle (the unique case is c16_bitand_assign_in_place_when_unique); `&=` with an arbitrary right operand at bit offset 1 (operand offsets equal mod 64 select the u64-aligned fast path, which exceeds the memory cap and is outside the claim): the result equals the pure op per index, and the other handle (if any) still reads its original bits (in place only when unique); unwind 8
-//@ stub: alloc::fmt::format -> empty String
+//@ stub: alloc::fmt::format -> empty String; bit_util::apply_bitwise_binary_op and BooleanBuffer::from_bitwise_binary_op -> bit-by-bit reference models of their contracts (the word kernels are C19's obligations)
 #[kani::proof]
-#[kani::unwind(8)]
+#[kani::unwind(14)]
 #[kani::stub(alloc::fmt::format, stub_format)]
+#[kani::stub(crate::util::bit_util::apply_bitwise_binary_op, ref_apply_bitwise_binary_op)]
+#[kani::stub(BooleanBuffer::from_bitwise_binary_op, ref_from_bitwise_binary_op)]
 fn c16_bitand_assign_never_mutates_shared() {
     bitand_assign_model(true);
 }
@@ -23,10 +71,12 @@ fn c16_bitand_assign_never_mutates_shared() {
 //@ timeout: 900
 //@ functions: arrow_buffer::BooleanBuffer::{bitand_assign, bitwise_bin_op_assign} on a uniquely owned buffer (in-place path: Buffer::into_mutable + apply_bitwise_binary_op)
 //@ bound: as c16_bitand_assign_never_mutates_shared with a unique left operand: the in-place result equals the pure AND per index; unwind 8
-//@ stub: alloc::fmt::format -> empty String
+//@ stub: alloc::fmt::format -> empty String; bit_util::apply_bitwise_binary_op and BooleanBuffer::from_bitwise_binary_op -> bit-by-bit reference models of their contracts (the word kernels are C19's obligations)
 #[kani::proof]
-#[kani::unwind(8)]
+#[kani::unwind(14)]
 #[kani::stub(alloc::fmt::format, stub_format)]
+#[kani::stub(crate::util::bit_util::apply_bitwise_binary_op, ref_apply_bitwise_binary_op)]
+#[kani::stub(BooleanBuffer::from_bitwise_binary_op, ref_from_bitwise_binary_op)]
 fn c16_bitand_assign_in_place_when_unique() {
     bitand_assign_model(false);
 }
@@ -70,12 +120,32 @@ struct Region {
 //@ tier: quick
 //@ timeout: 900
 //@ functions: arrow_buffer::BooleanBuffer::{bitand_assign, bitor_assign, bitwise_bin_op_assign} on memory owned by a custom Allocation (Buffer::from_custom_allocation), Buffer::into_mutable
-//@ bound: 2-byte region owned by a custom Allocation whose owner is still alive, wrapped in ONE arrow Buffer handle (Arc strong count 1); left operand a 12-bit view at bit offset 3, right operand arbitrary at bit offset 1; `&=` or `|=`: the owner's bytes are unchanged afterwards (a custom-owned region is never mutated in place) and the result equals the pure op per index; unwind 8
-//@ stub: alloc::fmt::format -> empty String
+//@ bound: 2-byte region owned by a custom Allocation whose owner is still alive, wrapped in ONE arrow Buffer handle (Arc strong count 1); left operand a 12-bit view at bit offset 3, right operand arbitrary at bit offset 1; `&=` (the `|=` instance is c16_bitor_assign_leaves_custom_owned_memory_alone): the owner's bytes are unchanged afterwards (a custom-owned region is never mutated in place) and the result equals the pure op per index; unwind 8
+//@ stub: alloc::fmt::format -> empty String; bit_util::apply_bitwise_binary_op and BooleanBuffer::from_bitwise_binary_op -> bit-by-bit reference models of their contracts (the word kernels are C19's obligations)
 #[kani::proof]
-#[kani::unwind(8)]
+#[kani::unwind(14)]
 #[kani::stub(alloc::fmt::format, stub_format)]
+#[kani::stub(crate::util::bit_util::apply_bitwise_binary_op, ref_apply_bitwise_binary_op)]
+#[kani::stub(BooleanBuffer::from_bitwise_binary_op, ref_from_bitwise_binary_op)]
 fn c16_bit_assign_never_writes_custom_owned_memory() {
+    custom_owned_model(false);
+}
+
+//@ tier: quick
+//@ timeout: 900
+//@ functions: arrow_buffer::BooleanBuffer::{bitor_assign, bitwise_bin_op_assign} on memory owned by a custom Allocation, Buffer::into_mutable
+//@ bound: as c16_bit_assign_never_writes_custom_owned_memory, for `|=`
+//@ stub: alloc::fmt::format -> empty String; bit_util::apply_bitwise_binary_op and BooleanBuffer::from_bitwise_binary_op -> bit-by-bit reference models of their contracts (the word kernels are C19's obligations)
+#[kani::proof]
+#[kani::unwind(14)]
+#[kani::stub(alloc::fmt::format, stub_format)]
+#[kani::stub(crate::util::bit_util::apply_bitwise_binary_op, ref_apply_bitwise_binary_op)]
+#[kani::stub(BooleanBuffer::from_bitwise_binary_op, ref_from_bitwise_binary_op)]
+fn c16_bitor_assign_leaves_custom_owned_memory_alone() {
+    custom_owned_model(true);
+}
+
+fn custom_owned_model(or: bool) {
     let l: [u8; 2] = kani::any();
     let r: [u8; 2] = kani::any();
     let owner = Arc::new(Region { mem: l });
@@ -83,7 +153,6 @@ fn c16_bit_assign_never_writes_custom_owned_memory() {
     let lb = unsafe { Buffer::from_custom_allocation(ptr, 2, owner.clone()) };
     let mut left = BooleanBuffer::new(lb, 3, 12);
     let right = BooleanBuffer::new(Buffer::from_vec(r.to_vec()), 1, 12);
-    let or: bool = kani::any();
     if or {
         left |= &right;
     } else {
@@ -95,8 +164,7 @@ fn c16_bit_assign_never_writes_custom_owned_memory() {
     let lbit = (l[(3 + i) / 8] >> ((3 + i) % 8)) & 1 == 1;
     let rbit = (r[(1 + i) / 8] >> ((1 + i) % 8)) & 1 == 1;
     assert!(left.value(i) == if or { lbit || rbit } else { lbit && rbit }, "result = pure op");
-    kani::cover!(or && !lbit && rbit, "a bit that an in-place OR would have set");
-    kani::cover!(!or && lbit && !rbit, "a bit that an in-place AND would have cleared");
+    kani::cover!(lbit != rbit, "a bit that an in-place update would have changed");
     std::mem::forget(left);
     std::mem::forget(right);
 }
